@@ -317,6 +317,10 @@ class Scenario:
                 if d.startswith("update:"):
                     main_update(d.split(":", 1)[1])
                     continue
+                if d.split(":")[0] in ("sus_remove", "sus_install", "sig_put"):
+                    parts = d.split(":")
+                    rec.ev("reqret", parts[0], sus_op(parts[0], parts[1], int(parts[2]) if len(parts) > 2 else 0))
+                    continue
                 do_call(d, getattr(RE, d))
             # further calls on the same engine (histories: what one call leaves behind must not affect the next)
             for nxt in sc.get("then", []):
